@@ -70,6 +70,7 @@ func cmdHarness(args []string) {
 	workers := fs.Int("j", 16, "workers")
 	replay := fs.Bool("replay", false, "replay violations natively")
 	dump := fs.String("dump", "", "dump verdict queries to dir")
+	ref := fs.Bool("ref", false, "overlay the frozen reference sources as .../v2/zzref")
 	conc := fs.Bool("conc", false, "concretize symbolic field stores when the path condition forces a single value")
 	solver := fs.String("solver", "", "main solver (z3, z3-new)")
 	var params multiFlag
@@ -83,6 +84,7 @@ func cmdHarness(args []string) {
 		fmt.Println("usage: gosmt harness [flags] <pkgdir> <func>")
 		os.Exit(2)
 	}
+	useRef = *ref
 	spec := HarnessSpec{Pkg: fs.Arg(0), Func: fs.Arg(1), Unwind: *unwind, Params: map[string]int{}, Solver: *solver, ConcStores: *conc}
 	for _, p := range params {
 		kv := strings.SplitN(p, "=", 2)
